@@ -559,6 +559,49 @@ func expandHelpers(modPkgs []*packages.Package, fset *token.FileSet, readSrc fun
 							}
 						}
 					case *ast.ReturnStmt:
+						if len(x.Results) > 1 {
+							// return helper(...), nil  (one helper call with one result among constant results)
+							ci := -1
+							okForm := true
+							for ri, r := range x.Results {
+								switch rr := r.(type) {
+								case *ast.CallExpr:
+									if ci >= 0 {
+										okForm = false
+									}
+									ci = ri
+								case *ast.BasicLit:
+								case *ast.Ident:
+									if _, isNil := info.Uses[rr].(*types.Nil); !isNil {
+										if cst, isConst := info.Uses[rr].(*types.Const); !isConst || cst.Pkg() != nil {
+											okForm = false
+										}
+									}
+								default:
+									okForm = false
+								}
+							}
+							if !okForm || ci < 0 {
+								continue
+							}
+							call := x.Results[ci].(*ast.CallExpr)
+							c, recv := calleeOf(call)
+							if c == nil {
+								continue
+							}
+							if prefix, res, ok := expand(call, c, recv, nil); ok && len(res) == 1 {
+								var parts []string
+								for ri, r := range x.Results {
+									if ri == ci {
+										parts = append(parts, res[0])
+									} else {
+										parts = append(parts, text(r.Pos(), r.End()))
+									}
+								}
+								edits = append(edits, textEdit{off(x.Pos()), off(x.End()), prefix + resync(x.Pos(), x.End(), "return "+strings.Join(parts, ", "))})
+							}
+							continue
+						}
 						if len(x.Results) != 1 {
 							continue
 						}
